@@ -84,7 +84,7 @@ type Enc struct {
 	goalMode bool // formulas currently evaluated become proof goals (quantifier index normalisation is for hypotheses only)
 	noDefine int // >0 while building terms under a quantifier (bound variables must not escape into definitions)
 	defs map[string]string // defined symbol -> its term
-	usedContracts, usedNoContract, usedInline, devirtUsed, absUsed map[string]bool
+	usedContracts, usedNoContract, usedInline, devirtUsed, absUsed, definesUsed map[string]bool
 	epochs    map[string]int
 	epochUsed bool
 	recDefs   map[*SpecFn]*recDef
